@@ -32,7 +32,69 @@ PROP_KEYS = ["H5Tget_class", "H5Tget_size", "H5Tget_order", "H5Tget_precision", 
 
 
 def budget(tier):
-    return {"examples": 110 if tier == "quick" else 300, "shards": 1 if tier == "quick" else 16}
+    return {"examples": 110 if tier == "quick" else 300, "shards": 1 if tier == "quick" else 16,
+            "examples2": 200 if tier == "quick" else 120}
+
+
+def strategy2(tier):
+    from checks import c11
+    return c11.session_strategy(tier)
+
+
+def _session_tree(tops, cfg, fail):
+    """Second stage: every file left by a multi-session history is inspected on its own; attributes must repeat the
+    channel's properties file; per session (uuid) the start timestamp is constant and the sequence number increases with
+    file time; the properties regenerated from any single file equal the channel's."""
+    drf = rfharness.drf()
+    exp = expected_attrs(cfg)
+    for t in tops:
+        ch = os.path.join(t, "ch0")
+        propfile = os.path.join(ch, "drf_properties.h5")
+        if not os.path.exists(propfile):
+            continue
+        orig_props = read_props(propfile)
+        files, _ = rfharness.raw_files(ch)
+        r2 = Result()
+        by_sess = {}
+        for rel, info in sorted(files.items()):
+            if "error" in info:
+                fail("sess-unreadable-file", rel + " " + info["error"])
+                continue
+            check_structure(cfg, rel, info, r2, ":sessions")
+            a = info["attrs"]
+            for k, v in exp.items():
+                if a.get(k) != v or orig_props.get(k) != v:
+                    fail("sess-file-attr-value", "%s %s=%r, channel %r, configured %r" % (rel, k, a.get(k), orig_props.get(k), v))
+            ms = int(rel.split("@")[1].split(".")[0]) * 1000 + int(rel.split("@")[1].split(".")[1])
+            by_sess.setdefault(a.get("uuid_str"), []).append((ms, a.get("sequence_num"), a.get("init_utc_timestamp"), rel))
+        for sig, d in r2.failures:
+            fail("sess-" + sig, d)
+        for uuid, lst in by_sess.items():
+            if not (isinstance(uuid, str) and uuid.startswith("sess")):
+                fail("sess-file-uuid", "%r in %s" % (uuid, lst[0][3]))
+            lst.sort()
+            for (m0, s0, i0, r0), (m1, s1, i1, r1) in zip(lst, lst[1:]):
+                if not s1 > s0:
+                    fail("sess-sequence-num", "session %s: %s has sequence %r, the later %s has %r" % (uuid, r0, s0, r1, s1))
+                if i0 != i1:
+                    fail("sess-init-timestamp-varies", "session %s: %s %r, %s %r" % (uuid, r0, i0, r1, i1))
+        # regeneration from single files (a few per tree: first, last and one of each session)
+        picks = {lst[0][3] for lst in by_sess.values()} | {lst[-1][3] for lst in by_sess.values()}
+        for rel in sorted(picks)[:6]:
+            one = os.path.join(os.path.dirname(t), "one")
+            shutil.rmtree(one, ignore_errors=True)
+            os.makedirs(os.path.join(one, "ch0", rel.split("/")[0]))
+            shutil.copy(files[rel]["path"], os.path.join(one, "ch0", rel))
+            try:
+                with rfharness.quiet_fds():
+                    drf.recreate_properties_file(os.path.join(one, "ch0"))
+                newp = read_props(os.path.join(one, "ch0", "drf_properties.h5"))
+                if newp != orig_props:
+                    diff = {k: (orig_props.get(k), newp.get(k)) for k in set(orig_props) | set(newp) if orig_props.get(k) != newp.get(k)}
+                    fail("sess-regenerated-properties-differ", "%s %r" % (rel, diff))
+            except Exception as e:
+                fail("sess-regenerate-exception", "%s %s: %s" % (rel, type(e).__name__, e))
+            shutil.rmtree(one, ignore_errors=True)
 
 
 @st.composite
@@ -127,6 +189,9 @@ def check_structure(cfg, rel, info, res, tag):
 
 
 def run_case(case):
+    if case.get("kind") == "sessions":
+        from checks import c11
+        return c11.run_sessions(case, ("sess-",), _session_tree)
     res = Result()
     cfg = case["cfg"]
     tag = ":" + case["path"]
@@ -260,4 +325,8 @@ def run_case(case):
     return res
 
 
-shrink_candidates = c01.shrink_candidates
+def shrink_candidates(case):
+    if case.get("kind") == "sessions":
+        from checks import c11
+        return c11.session_shrink(case)
+    return c01.shrink_candidates(case)
